@@ -645,3 +645,69 @@ func ruleTypedStore(rule string) RuleFn {
 		c.Check(ok, rule, "a decorated group is stored under the type of the stored value", where, "a decorator's flatten group result is accepted and its whole value stored under the element type's group key: Decorate(func(..) struct{dig.Out; V [][]int `group:\"x,flatten\"`}) succeeds and the next Invoke consuming []int `group:\"x\"` panics in reflect.Value.Set", nil, nil)
 	}
 }
+
+// ruleDotLeaves (X-dot-leaves): what the leaf result kinds report.
+func ruleDotLeaves(rule string) RuleFn {
+	return func(c *an.Ctx) {
+		c.Rule(rule, "X-dot-leaves: every dot.Node that resultSingle.DotResult builds carries the result's own Name, every one that resultGrouped.DotResult builds carries the result's own Group - the primary entry and each As entry alike - with Type the primary type resp. the As element; paramSingle.DotParam reports Type, Name and Optional, paramGroupedSlice.DotParam Type and Group of the parameter itself")
+		n := 0
+		for _, sp := range []struct {
+			fn, recv string
+			want     map[string]string // field -> required value (suffix match on p:<recv>.X); "" = any
+		}{
+			{"(dig.resultSingle).DotResult", "rs", map[string]string{"Name": "p:rs.Name"}},
+			{"(dig.resultGrouped).DotResult", "rt", map[string]string{"Group": "p:rt.Group"}},
+			{"(dig.paramSingle).DotParam", "ps", map[string]string{"Name": "p:ps.Name", "Type": "p:ps.Type"}},
+			{"(dig.paramGroupedSlice).DotParam", "pt", map[string]string{"Group": "p:pt.Group", "Type": "p:pt.Type"}},
+		} {
+			fn := c.Fn(rule, sp.fn)
+			if fn == nil {
+				continue
+			}
+			nodes := 0
+			an.Instrs(fn, func(in ssa.Instruction) {
+				al, ok := in.(*ssa.Alloc)
+				if !ok || !isConstruction(al) || !an.IsNamed(al.Type(), an.ModPath+"/internal/dot", "Node") {
+					return
+				}
+				nodes++
+				n++
+				for f, want := range sp.want {
+					v := fieldStore(al, f)
+					got := "<not set>"
+					if v != nil {
+						got = an.Norm(an.Resolve(v))
+					}
+					c.Check(got == want, rule, sp.fn+": entry reports its "+f, want, "a reported entry has "+f+" = "+got+" instead of "+want+": introspection and the DOT picture disagree with the registration", al, nil)
+				}
+				if strings.HasPrefix(sp.fn, "(dig.result") {
+					v := fieldStore(al, "Type")
+					got := "<not set>"
+					if v != nil {
+						got = an.Norm(an.Resolve(v))
+					}
+					okT := got == "p:"+sp.recv+".Type" || strings.HasPrefix(got, "p:"+sp.recv+".As[")
+					c.Check(okT, rule, sp.fn+": entry reports the primary type or an As interface", got, "entry type is "+got, al, nil)
+				}
+			})
+			min := 1
+			if strings.HasPrefix(sp.fn, "(dig.result") {
+				min = 2
+			}
+			c.Floor(rule, "dot.Node constructions in "+sp.fn, nodes, min)
+		}
+		if fn := c.Fn(rule, "(dig.paramSingle).DotParam"); fn != nil {
+			ok := false
+			an.Instrs(fn, func(in ssa.Instruction) {
+				al, isA := in.(*ssa.Alloc)
+				if isA && isConstruction(al) && an.IsNamed(al.Type(), an.ModPath+"/internal/dot", "Param") {
+					if v := fieldStore(al, "Optional"); v != nil && an.Norm(an.Resolve(v)) == "p:ps.Optional" {
+						ok = true
+					}
+				}
+			})
+			c.Check(ok, rule, "(dig.paramSingle).DotParam: entry reports Optional", "p:ps.Optional", "the optional flag is not reported", nil, nil)
+		}
+		_ = n
+	}
+}
